@@ -17,6 +17,18 @@ func (core *JApiCore) VerifScanOnly() *jerr.JApiError {
 	return core.scanProject()
 }
 
+// VerifScanAndExpand runs the scanning phase followed by MACRO collection and PASTE expansion (the second
+// context resolution, on the copied directives). Read-only helper for verification harnesses.
+func (core *JApiCore) VerifScanAndExpand() *jerr.JApiError {
+	if je := core.scanProject(); je != nil {
+		return je
+	}
+	if je := core.collectMacro(); je != nil {
+		return je
+	}
+	return core.processPaste()
+}
+
 // VerifContextChain returns the chain of open context directives, innermost first,
 // as "Keyword" or "Keyword(" when the context was opened explicitly.
 func (core *JApiCore) VerifContextChain() []string {
